@@ -39,12 +39,14 @@ FieldTypes == Depth1 \cup Depth2
 
 \* noname_*: the name part of the tag is empty (`json:",omitempty"`): the Go field name is the JSON name
 TagOptions == {"plain", "rename", "omitempty", "string", "dash", "notag", "unexported", "ignore", "rename_omitempty",
-               "noname_omitempty", "noname_string", "noname_both"}
+               "noname_omitempty", "noname_string", "noname_both",
+               \* name_*: the JSON NAME is a word that is also an option (`json:"string"`): it is a name, not an option
+               "name_string", "name_omitempty"}
 \* ",string" applies to scalars only (encoding/json ignores it elsewhere; the scanner must too)
 Fields == {[ty |-> t, tag |-> "plain"] : t \in FieldTypes}
           \cup {[ty |-> t, tag |-> o] : t \in {B("int"), B("string"), B("bool"), B("float64"), B("uint8"), Ptr(B("int")), Slice(B("string")),
                                                MapS(B("int")), S("time"), S("named_struct"), S("bytes"), Anon}, o \in TagOptions}
-          \cup {[ty |-> B(n), tag |-> o] : n \in Basics, o \in {"string", "noname_string", "noname_omitempty"}}
+          \cup {[ty |-> B(n), tag |-> o] : n \in Basics, o \in {"string", "noname_string", "noname_omitempty", "name_string", "name_omitempty"}}
           \cup {[ty |-> t, tag |-> "noname_omitempty"] : t \in {Slice(B("string")), MapS(B("int")), S("named_struct"), Ptr(S("named_struct")), Slice(S("named_struct")), Array2(B("int"))}}
           \cup {[ty |-> Ptr(B(n)), tag |-> "string"] : n \in {"int64", "bool", "float32", "string"}}
 
